@@ -18,6 +18,7 @@ GENERATORS = {
     "NativeFields_gen": "translator.gen_native",
     "Refresh_gen": "translator.gen_refresh",
     "SymAgg_gen": "translator.gen_symagg",
+    "TimeDim_gen": "translator.gen_timedim",
 }
 
 
